@@ -313,6 +313,11 @@ try:
 except ImportError:
     pass
 try:
+    from . import mprff_parts
+    PARTS += mprff_parts.parts()
+except ImportError:
+    pass
+try:
     from . import e2e_parts
     PARTS.append(_compose.theorem_part("e2e", e2e_parts.THEOREMS, e2e_parts.LEAN_MODULES))
 except ImportError:
